@@ -42,6 +42,11 @@ def _cell_xml(cell):
         r = repr(float(cell))
         return f'<table:table-cell office:value-type="float" office:value="{r}"><text:p>{r}</text:p></table:table-cell>'
     if isinstance(cell, dict):
+        if cell.get("t") == "date":
+            return f'<table:table-cell office:value-type="date" office:date-value="{cell["v"]}"><text:p>{cell["v"]}</text:p></table:table-cell>'
+        if cell.get("t") == "bool":
+            v = "true" if cell["v"] else "false"
+            return f'<table:table-cell office:value-type="boolean" office:boolean-value="{v}"><text:p>{v.upper()}</text:p></table:table-cell>'
         cell = cell["v"]
     return f'<table:table-cell office:value-type="string"><text:p>{escape(str(cell))}</text:p></table:table-cell>'
 
